@@ -17,7 +17,7 @@ import (
 // C06: every run terminates within the cycle budget and reports itself faithfully.
 
 func TestC06(t *testing.T) {
-	col := stats.New("C06", "terminating and deliberately non-terminating rule sets (1-6 rules, Retract, Complete); the natural run length k is measured first with a large budget, then MaxCycle is drawn from {0, 1, 2, k-1, k, k+1, 2k} and 1-3 recording listeners are registered; checked: cycles numbered consecutively from 1, every active rule evaluated exactly once per completed cycle with its fresh candidate status, at most one execution per cycle and only of a rule reported as candidate in that cycle, number of firings <= MaxCycle, cycle-limit error exactly when a satisfied rule exists after MaxCycle firings, nil at quiescence or after Complete, all listeners see identical sequences, and the same call without listeners returns the same class of result and final facts. A wall-clock guard of 20 s per run only detects hangs. Non-trivial: the run ended exactly at the budget boundary (firings == MaxCycle) or by Complete. Distinct by rule text + state + MaxCycle.",
+	col := stats.New("C06", "terminating and deliberately non-terminating rule sets (1-6 rules, Retract, Complete); the natural run length k is measured first with a large budget, then MaxCycle is drawn from {0, 1, 2, k-1, k, k+1, 2k} and 1-3 recording listeners are registered; checked: cycles numbered consecutively from 1, every active rule evaluated exactly once per completed cycle with its fresh candidate status, at most one execution per cycle and only of a rule reported as candidate in that cycle, number of firings <= MaxCycle, cycle-limit error exactly when a satisfied rule exists after MaxCycle firings, nil at quiescence or after Complete, all listeners see identical sequences, and the same call without listeners returns the same class of result and final facts. A wall-clock guard of 20 s per run only detects hangs. A quarter of the cases run on an instance that served an earlier call (mostly ended at its own cycle limit of 1, 2 or 30, possibly after a Retract). Non-trivial: the run ended exactly at the budget boundary (firings == MaxCycle) or by Complete. Distinct by rule text + state + MaxCycle.",
 		"the cycle-limit error is recognised structurally (non-nil, not a context error, names no failing rule), not by its wording")
 	defer col.Flush()
 	rc := fullRuleCfg()
